@@ -485,8 +485,55 @@ def prove_pierce(src_root, ex: Explorer):
     ex.run(path, 'pierce')
 
 
+def prove_address_and_state(src_root, ex: Explorer):
+    def address(ctx: Ctx):
+        """_get_peer_address: fails (PeerConnectionError) iff the server knows no address (0.0.0.0) or NEITHER port is usable; a peer with
+        only an obfuscated port is reachable (select_port then chooses it: C11.select_port.*)"""
+        it = mk(src_root, ctx)
+        w = mk_network(it, ctx)
+        no_ip = ctx.choose(2, 'no-address') == 1
+        port = [0, 2234][ctx.choose(2, 'port')]
+        oport = [0, 2235][ctx.choose(2, 'obfuscated-port')]
+        resp = Stub('GetPeerAddress.Response', ip='0.0.0.0' if no_ip else '1.2.3.4', port=port, obfuscated_port=oport)
+        w.net.attrs['server_connection'] = Stub('server', send_message=Recorder('send', is_async=True))
+        it.hooks[f'{NET}:Network.create_server_response_future'] = lambda it2, f, a, k: A.SimpleAwaitable(it2.aio, 'resp', lambda it3: (Opaque('conn'), resp))
+        try:
+            r = run(it, it.getattr(w.net, '_get_peer_address'), 'bob')
+            raised = None
+        except PyRaise as pr:
+            r, raised = None, pr.exc.cls.name
+        tag = f'ip={"none" if no_ip else "ok"},port={port},obfuscated={oport}'
+        if no_ip or (port == 0 and oport == 0):
+            ctx.prove(f'C11.peer-address[{tag}]', raised == 'PeerConnectionError')
+        else:
+            ctx.prove(f'C11.peer-address[{tag}]', raised is None and tuple(unbox(x) for x in r) == ('1.2.3.4', port, oport),
+                      f'a peer with a usable port is reported unreachable ({raised})')
+    ex.run(address, 'peer-address')
+
+    def conn_state(ctx: Ctx):
+        """PeerConnection.set_connection_state, exhaustive over state x type: the obfuscation layer is only kept for peer ('P') message
+        connections - file and distributed connections are plain as soon as they leave AWAITING_INIT; the reader task runs exactly in
+        ESTABLISHED"""
+        it = mk(src_root, ctx)
+        ST = cls(it, CONN, 'PeerConnectionState')
+        st = ST.enum_members[ctx.choose(len(ST.enum_members), 'state')]
+        typ = ['P', 'F', 'D'][ctx.choose(3, 'type')]
+        obf = ctx.choose(2, 'obfuscated') == 1
+        c = Obj(cls(it, CONN, 'PeerConnection'))
+        c.attrs.update(hostname='h', port=1, connection_type=typ, obfuscated=obf, connection_state=ST.enum_members[0], username='bob')
+        calls = []
+        it.hooks[f'{CONN}:DataConnection.start_reader_task'] = lambda it2, f, a, k: calls.append('start')
+        it.hooks[f'{CONN}:DataConnection.stop_reader_task'] = lambda it2, f, a, k: calls.append('stop')
+        it.call(it.getattr(c, 'set_connection_state'), [st], {})
+        want_obf = obf and (typ == 'P' or st.name == 'AWAITING_INIT')
+        ctx.prove(f'C11.connection-state[{st.name},{typ},obfuscated={obf}]', c.attrs['obfuscated'] is want_obf and c.attrs['connection_state'] is st
+                  and calls == (['start'] if st.name == 'ESTABLISHED' else ['stop']),
+                  f'obfuscated={c.attrs["obfuscated"]} (expected {want_obf}), reader {calls}')
+    ex.run(conn_state, 'connection-state')
+
+
 def items(src_root, tier):
-    return [('indirect', None), ('direct', None), ('fallback', None), ('race', None), ('select_port', None), ('connect_to_peer', None), ('pierce', None)]
+    return [('address-state', None), ('indirect', None), ('direct', None), ('fallback', None), ('race', None), ('select_port', None), ('connect_to_peer', None), ('pierce', None)]
 
 
 def run_item(src_root, item, tier):
@@ -495,7 +542,7 @@ def run_item(src_root, item, tier):
     kind, arg = item
     try:
         {'indirect': prove_indirect, 'direct': prove_direct, 'fallback': prove_fallback, 'race': prove_race, 'select_port': prove_select_port,
-         'connect_to_peer': prove_connect_to_peer, 'pierce': prove_pierce}[kind](src_root, ex)
+         'connect_to_peer': prove_connect_to_peer, 'pierce': prove_pierce, 'address-state': prove_address_and_state}[kind](src_root, ex)
     except Unsupported as e:
         res.errors.append(f'{kind}: unsupported: {e}')
     collect(res, ex)
